@@ -169,6 +169,18 @@ def run(chk, drv):
             want = sum((x & 0x7f) << (7 * j) for j, x in enumerate(b[:cont + 1])) % (1 << 64)
             if isinstance(r, Exception) or r != (want, b[:cont + 1]):
                 chk.fail("decode-wrong", b.hex(), repr(r))
+    # ---------------- load_varint(stream, first): the caller has already taken the first byte (load_fields does) — the
+    # result, the raw bytes and what is left in the stream must be those of reading everything from the stream
+    for b in bss:
+        if not b:
+            continue
+        whole, s1 = io.BytesIO(b + b"\x2a\x2b"), io.BytesIO(b[1:] + b"\x2a\x2b")
+        r0 = impl(betterproto.load_varint, whole)
+        r1 = impl(betterproto.load_varint, s1, b[:1])
+        chk.count("load_varint_with_first_byte")
+        same = (type(r0) is type(r1)) if isinstance(r0, Exception) or isinstance(r1, Exception) else (r0 == r1 and whole.read() == s1.read())
+        if not same:
+            chk.fail("load_varint-first-byte-differs", b.hex(), "reading all from the stream: %r; with first=%r taken by the caller: %r" % (r0, b[:1], r1))
     # ---------------- decode_varint(buffer, pos) on the same arbitrary byte strings, at an offset
     sample = bss if len(bss) < 120000 else bss[:66000] + chk.rng.sample(bss[66000:], 50000)
     pre = b"\x7f\x80"
@@ -273,6 +285,14 @@ def replay(chk, rp):
             return True
         return not (size == len(enc) and (inp >= 1 << 64 or (py_canonical(enc, inp)
                     and impl(betterproto.decode_varint, enc, 0) == (inp % (1 << 64), len(enc)))))
+    if kind == "load_varint-first-byte-differs" and isinstance(inp, str) and inp:
+        b = bytes.fromhex(inp)
+        whole, s1 = io.BytesIO(b + b"\x2a\x2b"), io.BytesIO(b[1:] + b"\x2a\x2b")
+        r0 = impl(betterproto.load_varint, whole)
+        r1 = impl(betterproto.load_varint, s1, b[:1])
+        if isinstance(r0, Exception) or isinstance(r1, Exception):
+            return type(r0) is not type(r1)
+        return not (r0 == r1 and whole.read() == s1.read())
     if isinstance(inp, str) and "varint" in kind or kind in ("decode-wrong", "premature-end-not-signalled", "long-varint-not-rejected"):
         b = bytes.fromhex(inp)
         r = impl(betterproto.load_varint, io.BytesIO(b))
